@@ -82,9 +82,13 @@ def gen_case(rng, tier):
         elif r < 0.8:
             items.append([f'box{i}', M([['a', SP('call', func=f'verif_targets.r{i}', args=M([['x', S(i)]]))], ['z', S(f'plain{i}', style='dq')]])])
             prods.append({'path': (f'box{i}', 'a'), 'name': f'r{i}', 'top': f'box{i}'})
-        else:
+        elif r < 0.9:
             items.append([f'box{i}', L([S(f'plain{i}', style='dq'), SP('call', func=f'verif_targets.r{i}', args=L([S(i)]))])])
             prods.append({'path': (f'box{i}', 1), 'name': f'r{i}', 'top': f'box{i}'})
+        else:
+            # a scalar dynamic node (!eval) as a direct element of a list
+            items.append([f'box{i}', L([SP('eval', code=f'import verif_targets\nverif_targets.r{i}({i})'), S(f'plain{i}', style='dq')])])
+            prods.append({'path': (f'box{i}', 0), 'name': f'r{i}', 'top': f'box{i}'})
     # producers that are arguments of a function node which a later stage re-targets (another function: the old arguments are dropped,
     # whatever their priority) or whose arguments it replaces (same function, default deletion)
     arg_prods = []
